@@ -86,6 +86,10 @@ func main() {
 		os.Exit(writeJSON(filepath.Join(verifDir, "baseline_params.json"), params))
 	case "list":
 		os.Exit(cmdList())
+	case "audit":
+		os.Exit(cmdAudit())
+	case "validate":
+		os.Exit(cmdValidate(pos))
 	case "replay":
 		if len(pos) != 1 {
 			usage()
